@@ -554,29 +554,49 @@ func scenarioC13(c *hlib.RunCtx) *hlib.Violation {
 				overlapped = true
 			case <-doneA:
 			}
-			handleChart(cfg, api).ServeHTTP(recB, httptest.NewRequest("GET", "/chart/?date="+db, nil))
+			// (served while the first is stopped; an implementation that serves one
+			// chart at a time makes it wait: after a short while of real time the first
+			// is let go and the pair is not judged)
+			doneB := make(chan struct{})
+			go func() {
+				handleChart(cfg, api).ServeHTTP(recB, httptest.NewRequest("GET", "/chart/?date="+db, nil))
+				close(doneB)
+			}()
+			serialised := false
 			if overlapped {
+				select {
+				case <-doneB:
+				case <-time.After(3 * time.Second):
+					serialised = true
+				}
 				close(st.release)
 				<-doneA
-				s.Probe("overlapping-charts")
 			}
+			<-doneB
 			api.Merge.(*permBucket).park = nil
-			s.Logf("op", "overlapping charts of %s (stopped after %d bytes: %v) and %s -> %d, %d", da, st.first, overlapped, db, recA.Code, recB.Code)
-			for _, x := range []struct {
-				date string
-				day  int
-				rec  *httptest.ResponseRecorder
-			}{{da, a, recA}, {db, b, recB}} {
-				if x.rec.Code != 200 {
-					fail("chart-failed", "charting %s while another chart request was being served answered %d: %s", x.date, x.rec.Code, x.rec.Body.String())
-					continue
+			if serialised {
+				s.Probe("charts-are-serialised")
+			} else {
+				if overlapped {
+					s.Probe("overlapping-charts")
 				}
-				out, err := os.ReadFile(filepath.Join(dir, "charts", x.date+".json"))
-				if err != nil {
-					fail("chart-missing", "chart object %s.json missing after two overlapping chart requests", x.date)
-					continue
+				s.Logf("op", "overlapping charts of %s (stopped after %d bytes: %v) and %s -> %d, %d", da, st.first, overlapped, db, recA.Code, recB.Code)
+				for _, x := range []struct {
+					date string
+					day  int
+					rec  *httptest.ResponseRecorder
+				}{{da, a, recA}, {db, b, recB}} {
+					if x.rec.Code != 200 {
+						fail("chart-failed", "charting %s while another chart request was being served answered %d: %s", x.date, x.rec.Code, x.rec.Body.String())
+						continue
+					}
+					out, err := os.ReadFile(filepath.Join(dir, "charts", x.date+".json"))
+					if err != nil {
+						fail("chart-missing", "chart object %s.json missing after two overlapping chart requests", x.date)
+						continue
+					}
+					checkChart(out, ucfg, stored, day0, x.day, x.day, fail)
 				}
-				checkChart(out, ucfg, stored, day0, x.day, x.day, fail)
 			}
 		}
 	}
